@@ -18,6 +18,18 @@ CLAIMED = {
    text="The real egglog-concurrency code (thread pool with nested scopes, helping workers and backup workers; ReadOptimizedLock; ConcurrentVec; ParallelVecWriter; NotificationList; Notification; ResettableOnceLock; SharedArena) runs under the seeded token scheduler with every hook site eligible. Oracles: every task ran exactly once on the first line after scope returns, a panic payload reaches the caller after all tasks finished, deadlock is a scheduler verdict (no runnable thread), no torn read / overlapping writers on the two-word invariant, nothing lost or duplicated in the vectors and lists. Seeded sampling of interleavings.",
    note="Blocking receive/wait/join are replaced by poll-and-yield variants of the same operation; data races on plain memory and weak-memory effects are invisible to a serialising scheduler (Miri complement planned for the thorough tier).",
    tech="deterministic simulation (token-passing scheduler with seeded policies and per-run site subsets), scheduler-decided deadlock detection"),
+ "C04": dict(cat="fault_enumeration", ref="DESIGN §5 C04",
+   text="Seeded histories with injected faults at arbitrary positions: commands that die while executing (rule panic after staged unions, flaky primitive failing at its k-th invocation inside a rule run, :no-merge conflict, failed lookup, arithmetic failure, failing merge function), commands rejected before executing, I/O failures; serial and threaded under the token scheduler. After every single operation the consistency invariant is evaluated through the public read API: unique key per table, every stored e-class id (in columns and inside containers) is its own representative, get_size equals the scan, serialize() describes the same rows, and pairs of terms the dump shows in one class must pass (check (= a b)) at once.",
+   note="Fault positions and kinds are sampled by the seed, not enumerated exhaustively. A failed command has no promised partial effect; only consistency is demanded.",
+   tech="deterministic simulation with fault injection (generated failing commands + flaky primitive at k-th call), invariant oracle after every operation"),
+ "C06": dict(cat="exploration", ref="DESIGN §5 C06",
+   text="Each seeded program is run with one thread and then with 2-8 pool workers under the token scheduler, four schedules per program, with every EGGLOG_PARALLEL_* cut-off, fork depth, action batch size and the incremental/full rebuild and compaction thresholds drawn per run so that parallel insert/delete/rehash, parallel rebuild, strata-parallel merge_all, parallel container rebuild and parallel index construction run on tiny inputs (reach measured by probes). Per-command outcomes, updated flags, sizes, extraction costs and id-free dumps must agree after every command; deadlock is a scheduler verdict.",
+   note="Threads are descheduled only at hook sites; contention inside uninstrumented primitives (DashMap shard locks, SegQueue) is never produced. Id-order dependent results are not generated.",
+   tech="deterministic simulation (real engine under the token-passing scheduler, seeded policies, per-run configuration swarm), differential oracle vs the single-threaded run"),
+ "C09": dict(cat="fault_enumeration", ref="DESIGN §5 C09",
+   text="Sessions S1; bad; S2 against S1; S2 in plain, term-encoding and proof mode, with bad drawn from byte-level damage (truncation, unbalanced and 10^4-deep parentheses, random bytes), a catalogue of ill-typed mutations, run-time failures and I/O failures, inserted at a seeded position; each session runs in a worker process so that an abort or stack overflow is an observation. No command may panic or kill the process; a command rejected before execution must leave every later outcome and dump identical to the session without it (S2 deliberately re-declares and re-uses the names the bad command touched); after an execution failure the invariant of C04 holds.",
+   note="Which error kinds are pre-execution rejections is fixed in exec::is_rejection. Two open known findings (proof/term mode keeps a declaration refused as UnsupportedProofCommand) are keyed by violation class and failing shape.",
+   tech="deterministic simulation with fault injection (bad-input catalogue at seeded positions), differential oracle against the fault-free session, process-death observation"),
 }
 NOT_YET = "check not built yet in this round; will be claimed once its check is silent on the unchanged tree and sensitive to seeded breakage"
 NA = {
